@@ -287,6 +287,7 @@ func (f *frame) execValue(v ssa.Value, st *state, reach string) *sym {
 		if mt, ok := x.X.Type().Underlying().(*types.Map); ok {
 			vis := fmt.Sprintf("((as const (Array %s Bool)) false)", so.sortOf(mt.Key()))
 			f.rangeSt[x] = &rangeRec{m: s, visited: vis}
+			f.setVisited(x, st, vis)
 		}
 		return rs
 	case *ssa.Next:
@@ -387,7 +388,7 @@ func (f *frame) execIndexAddr(x *ssa.IndexAddr, st *state, reach string) *sym {
 			vc.oblige("safety:idx@"+valName(x.X)+"["+valName(x.Index)+"]", "", reach, inb, x.Pos(), "slice index in range", nil)
 		}
 		vc.assume(reach, inb)
-		return &sym{typ: x.Type(), pl: &place{kind: plElem, base: "(sbase " + s + ")", idx: vc.define("ei", "Int", "(+ (soff "+s+") "+i+")"), elemT: u.Elem(), typ: u.Elem()}}
+		return &sym{typ: x.Type(), pl: &place{kind: plElem, base: "(sbase " + s + ")", idx: "(sidx " + s + " " + i + ")", elemT: u.Elem(), typ: u.Elem()}}
 	case *types.Pointer:
 		arr := u.Elem().Underlying().(*types.Array)
 		inb := fmt.Sprintf("(and (<= 0 %s) (< %s %d))", i, i, arr.Len())
@@ -789,6 +790,45 @@ func (f *frame) setVisited(rg *ssa.Range, st *state, t string) {
 
 // ---------- calls ----------
 
+func staticCalleeName(com *ssa.CallCommon) string {
+	if com.IsInvoke() {
+		return com.Method.FullName()
+	}
+	if fn := com.StaticCallee(); fn != nil {
+		return fn.String()
+	}
+	if _, ok := com.Value.(*ssa.Builtin); ok {
+		return "builtin:" + com.Value.Name()
+	}
+	return "dyn:" + types.TypeString(com.Value.Type(), nil)
+}
+
+// ordinalOf: rank of this call site among the call sites of the same callee in this function, in source order.
+func (f *frame) ordinalOf(com *ssa.CallCommon, pos token.Pos) int {
+	if f.callPos == nil {
+		f.callPos = map[string][]token.Pos{}
+		for _, b := range f.fn.Blocks {
+			for _, in := range b.Instrs {
+				if ci, ok := in.(ssa.CallInstruction); ok {
+					n := staticCalleeName(ci.Common())
+					f.callPos[n] = append(f.callPos[n], ci.Pos())
+				}
+			}
+		}
+		for _, ps := range f.callPos {
+			sort.Slice(ps, func(i, j int) bool { return ps[i] < ps[j] })
+		}
+	}
+	ps := f.callPos[staticCalleeName(com)]
+	for i, p := range ps {
+		if p == pos {
+			return i
+		}
+	}
+	return len(ps)
+}
+
+
 func (f *frame) calleeName(com *ssa.CallCommon) (abs string, callee *ssa.Function) {
 	if com.IsInvoke() {
 		return com.Method.FullName(), nil
@@ -830,13 +870,13 @@ func (f *frame) execGo(x *ssa.Go, st *state, reach string) {
 	vc.callsSeen["go"]++
 	c := vc.w.contractOf(abs)
 	args, binds := f.callArgs(com, callee)
+	f.curOrd = f.ordinalOf(com, x.Pos())
 	f.siteAsserts("go", rel, "before", args, nil, st, reach, x.Pos())
 	if c == nil {
 		return
 	}
 	env := f.calleeEnv(c, callee, args, binds, st, st)
-	ord := vc.callOrd["go "+rel]
-	vc.callOrd["go "+rel]++
+	ord := f.ordinalOf(com, x.Pos())
 	for i, r := range c.Requires {
 		label := r.Label
 		if label == "" {
@@ -866,6 +906,7 @@ func (f *frame) execCall(instr ssa.Instruction, com *ssa.CallCommon, st *state, 
 	}
 	abs, callee := f.calleeName(com)
 	args, binds := f.callArgs(com, callee)
+	f.curOrd = f.ordinalOf(com, pos)
 	return f.applyCall(abs, callee, args, binds, st, reach, pos, rt)
 }
 
@@ -923,8 +964,7 @@ func (f *frame) applyContract(c *Contract, rel string, callee *ssa.Function, arg
 	}
 	pre := st.clone()
 	envPre := f.calleeEnv(c, callee, args, binds, pre, pre)
-	ord := vc.callOrd[rel]
-	vc.callOrd[rel]++
+	ord := f.curOrd
 	if !f.vcTrusted() {
 		for i, r := range c.Requires {
 			label := r.Label
@@ -1168,6 +1208,7 @@ func (f *frame) runDefers(st *state, reach string) {
 			abs, _ = f.calleeName(com)
 			args = d.args
 		}
+		f.curOrd = f.ordinalOf(com, d.instr.Pos())
 		f.applyCall(abs, callee, args, binds, st, guard, d.instr.Pos(), rt)
 		m := vc.mergeStates([]string{d.armed, "true"}, []*state{st, pre})
 		st.h, st.epoch, st.havocked = m.h, m.epoch, m.havocked
@@ -1258,7 +1299,7 @@ func (f *frame) execAppend(com *ssa.CallCommon, st *state, reach string, rt type
 	// shifted view of the old contents when the offset may be non-zero
 	shifted := vc.fresh("shifted", "(Array Int "+es+")")
 	vc.assume(reach, fmt.Sprintf("(=> (= (soff %s) 0) (= %s %s))", s, shifted, old))
-	vc.assume(reach, fmt.Sprintf("(forall ((i Int)) (! (=> (and (<= 0 i) (< i (slen %s))) (= (select %s i) (select %s (+ (soff %s) i)))) :pattern ((select %s i))))", s, shifted, old, s, shifted))
+	vc.assume(reach, fmt.Sprintf("(forall ((i Int)) (! (=> (and (<= 0 i) (< i (slen %s))) (= (select %s i) (select %s (sidx %s i)))) :pattern ((select %s i))))", s, shifted, old, s, shifted))
 	// what is appended
 	argT := com.Args[1].Type().Underlying()
 	if _, isStr := argT.(*types.Basic); isStr {
@@ -1272,11 +1313,12 @@ func (f *frame) execAppend(com *ssa.CallCommon, st *state, reach string, rt type
 		addLen = "(slen " + x + ")"
 		// the common shape: the variadic pack is a fresh one-element array
 		xold := fmt.Sprintf("(select %s (sbase %s))", e, x)
+		_ = xold
 		content = vc.fresh("appcontent", "(Array Int "+es+")")
 		// len(x) == 1: content = store(shifted, len(s), x[0])
-		vc.assume(reach, fmt.Sprintf("(=> (= (slen %s) 1) (= %s (store %s (slen %s) (select %s (soff %s)))))", x, content, shifted, s, xold, x))
+		vc.assume(reach, fmt.Sprintf("(=> (= (slen %s) 1) (= %s (store %s (slen %s) (select %s (sidx %s 0)))))", x, content, shifted, s, xold, x))
 		vc.assume(reach, fmt.Sprintf("(=> (= (slen %s) 0) (= %s %s))", x, content, shifted))
-		vc.assume(reach, fmt.Sprintf("(=> (> (slen %s) 1) (forall ((i Int)) (! (and (=> (and (<= 0 i) (< i (slen %s))) (= (select %s i) (select %s i))) (=> (and (<= (slen %s) i) (< i (+ (slen %s) (slen %s)))) (= (select %s i) (select %s (+ (soff %s) (- i (slen %s))))))) :pattern ((select %s i)))))",
+		vc.assume(reach, fmt.Sprintf("(=> (> (slen %s) 1) (forall ((i Int)) (! (and (=> (and (<= 0 i) (< i (slen %s))) (= (select %s i) (select %s i))) (=> (and (<= (slen %s) i) (< i (+ (slen %s) (slen %s)))) (= (select %s i) (select %s (sidx %s (- i (slen %s)))))) :pattern ((select %s i)))))",
 			x, s, content, shifted, s, s, x, content, xold, x, s, content))
 	}
 	vc.hset(st, ek, fmt.Sprintf("(store %s %s %s)", e, nb, content))
@@ -1308,9 +1350,7 @@ func (f *frame) siteAsserts(kind, rel, when string, args, results []*sym, st *st
 		if sc.Callee != name && sc.Callee != rel && !(kind == "go" && sc.Callee == "go "+rel) {
 			continue
 		}
-		ordKey := when + "|" + sc.Callee + "|" + fmt.Sprint(sc.Label)
-		ord := vc.callOrd[ordKey]
-		vc.callOrd[ordKey]++
+		ord := f.curOrd
 		if sc.Ord >= 0 && sc.Ord != ord {
 			continue
 		}
